@@ -6,7 +6,7 @@ VERIF = os.path.dirname(os.path.dirname(os.path.abspath(__file__)))
 
 NOTE_COMMON = ('Trusted: Coq 8.16.1 kernel + vm_compute (no native_compute); no axioms (Print Assumptions = Closed under the global '
                'context for every theorem of the property file); extraction via ExtrOcamlBasic only (no Extract Constant/Inductive) + '
-               'hand-written OCaml glue; C driver, Python orchestrator, gcc/ASan/UBSan; coq/Consts.v regenerated from /repo on every run. '
+               'hand-written OCaml glue; C driver, Python orchestrator, gcc/ASan/UBSan; coq/Consts.v (constants) and coq/Guards.v (guard macros of every public core function, syntactic scan) regenerated from /repo on every run. '
                'The Gallina model is hand-written: its fidelity to the C is CHECKED by differential runs on every invocation, not proved. ')
 
 CLAIMS = {
@@ -70,19 +70,19 @@ CLAIMS['C06'] = dict(
    technique='Coq proof (conservation invariant + inductive safety invariant over arbitrary schedules) tied by deterministic-scheduler differential testing',
    design='7/C06')
 CORE_TEXT = {
- 'C01': 'guards of every state-changing call refuse without effect (any wrong state, zombies, no context); plus per-run monitors: no handler for a non-RUNNING module, reported running count = RUNNING modules',
+ 'C01': 'GLOBAL (every script, every callback behaviour, from any world on): a registered module never returns to IDLE and ZOMBIE is final (lifecycle_monotone, via the generic invariant theorem of CoreInv.v whose obligations are the edges themselves); the state sets of the guards are the M_MOD_ASSERT_STATE arguments read from the C source (Guards.v); guards of every state-changing call refuse without effect (any wrong state, zombies, no context); plus per-run monitors: no handler for a non-RUNNING module, reported running count = RUNNING modules',
  'C02': 'copies: ineligible modules get nothing, eligible ones exactly one copy appended at the tail of their pipe carrying sender/topic/payload, full pipe drops the copy, capacity >= 8192, direct tell reaches the addressee only; per-run monitors: at-most-once, send order, auto-free exactly once',
  'C03': 'errno non-interference of event reception, dispatch case analysis, quit code recorded and returned, ready set sound and bounded by max_events, event userdata = source userdata',
  'C04': 'ref-counted heap discipline of the model (ref/unref steps, destructor once at zero, use of freed objects flagged); the property itself is judged per run by ASan/UBSan and the allocator census (partial by nature); known finding D10 (task thread outliving its source) is listed in known_findings.txt and reproduced by a corpus case',
- 'C07': 'second context refused with EEXIST, every context call / registration without context refused with EPIPE, module operations refused with EPERM, looping or zombie context refuses deregistration, finalized context refuses registration',
+ 'C07': 'the context-guarded calls are exactly the C functions containing M_CTX_ASSERT (Guards.v, regenerated); second context refused with EEXIST, every context call / registration without context refused with EPIPE, module operations refused with EPERM, looping or zombie context refuses deregistration, finalized context refuses registration',
  'C08': 'copies are appended at the pipe tail, events are appended to the batch in arrival order and handed over in that order; per-run monitor of per-recipient send order incl. pills',
- 'C09': 'registry steps: present key -> EEXIST, absent -> added, bad priority -> EINVAL without token, deregister present removes exactly that entry, absent -> error without effect, tasks cannot be deregistered',
+ 'C09': 'priority bits are validated by exactly the subscription / source-registration functions (M_SRC_ASSERT_PRIO_FLAGS, Guards.v regenerated); registry steps: present key -> EEXIST, absent -> added, bad priority -> EINVAL without token, deregister present removes exactly that entry, absent -> error without effect, tasks cannot be deregistered',
  'C13': 'the flush decision as a function of priority, batch size and accumulated count (high: always, low: never, normal: count >= size, size 0: at once), batch timer hands over everything accumulated',
  'C14': 'thread confinement: a thread holding another context or none fails M_MOD_ASSERT with EPERM; whenever that assertion fails EVERY module operation / pub-sub call is refused with a negative code and no effect; a foreign call leaves the owner thread context untouched; a message cannot be addressed to a module of another context. Independence: coq/Globals.v (every library symbol in a writable section with its writers, REGENERATED from the tree by nm + a source scan on every run) satisfies the policy of coq/GlobalsModel.v, hence no two accesses of different context threads to one global race (happens-before model by phases: ELF constructor, pthread_once, documented configuration step). Further engines of this check: foreign-thread calls are really made by another pthread in the differential driver (also while the owner is inside the module callback); 2..16 contexts loop concurrently under ThreadSanitizer and each context observation is compared with the same program run alone',
- 'C15': 'live name without allow-replace -> EEXIST, deny-pub / deny-sub calls refused, deny-ctx hides the context during the callbacks of the module, reserved topic prefix refused, persistent module not deregistrable while looping',
- 'C16': 'unstash(n) hands over exactly firstn n of the stash in one invocation and returns that number, stash appends, high priority events refused, both refused unless RUNNING',
- 'C17': 'become pushes, unbecome pops the top or fails on the empty stack, every invocation runs hd(stack) fixed before the body starts, no empty invocation, both refused unless RUNNING',
- 'C18': 'token consumption step (unlimited / refused at 0 / decrement) and the bucket bound for EVERY sequence of consumes and refills: successes <= tokens + refills <= burst + refills',
+ 'C15': 'GLOBAL: name and flags (replace, persist, deny-ctx/pub/sub, hooks) of a registered module never change (lifecycle_monotone); the deny-guarded calls are the C functions containing M_MOD_ASSERT_PERM (Guards.v, regenerated); live name without allow-replace -> EEXIST, deny-pub / deny-sub calls refused, deny-ctx hides the context during the callbacks of the module, reserved topic prefix refused, persistent module not deregistrable while looping',
+ 'C16': 'GLOBAL: in every reachable world a module that is not RUNNING/PAUSED has an empty stash (stack_and_stash_empty_unless_active); unstash(n) hands over exactly firstn n of the stash in one invocation and returns that number, stash appends, high priority events refused, both refused unless RUNNING',
+ 'C17': 'GLOBAL: in every reachable world a module that is not RUNNING/PAUSED has an empty handler stack, i.e. every stop clears it, for every script and callback behaviour (stack_and_stash_empty_unless_active); become pushes, unbecome pops the top or fails on the empty stack, every invocation runs hd(stack) fixed before the body starts, no empty invocation, both refused unless RUNNING',
+ 'C18': 'GLOBAL: in every reachable world every bucket is well formed and holds at most its burst (tokens_never_exceed_burst); which calls consume a token is READ FROM THE C SOURCE (Guards.v): every call whose function contains M_MOD_CONSUME_TOKEN is refused without effect on an empty bucket (out_of_tokens_refused), the set is pinned (token_guarded_calls) and the token is taken after every other check (token_is_consumed_last); token consumption step (unlimited / refused at 0 / decrement) and the bucket bound for EVERY sequence of consumes and refills: successes <= tokens + refills <= burst + refills',
  'C19': 'shape of a system notification (system flag, no payload, named sender), pause and resume notify exactly once after the state change',
  'C20': 'what each destructor closes: poll handle with the context, user descriptors only with auto-close, internal descriptors when polling stops (idempotent)',
 }
@@ -95,11 +95,11 @@ NOTE_EXTRA = {
 }
 for _p, _t in CORE_TEXT.items():
     CLAIMS[_p] = dict(
-        text='Coq one-step theorems over the executable actor-core model, for every behaviour of user callbacks: ' + _t +
+        text='Coq theorems over the executable actor-core model, for every behaviour of user callbacks: ' + _t +
              '. Tie: the extracted model runs the same scripted, re-entrant programs as the real library (ASan/UBSan build, canonical epoll '
              'order, scripted environment); full traces must agree; a property-level projection decides whether a difference is a violation.',
         note=NOTE_COMMON + 'Core model = hand-written statement-order transliteration of ctx.c/mod.c/ps.c/src.c/evts.c/epoll.c (coq/CoreModel.v, CoreExec.v) with scripted, re-entrant callbacks. PROVED: the one-step theorems of the property file, for every behaviour of user callbacks. NOT PROVED (decided per run by the differential check and the trace monitors only): statements over whole histories. Out of the model: kqueue/uring plugins, FUSE, dlopen modules, task threads, thresholds firing, real time.' + NOTE_EXTRA.get(_p, ''),
-        technique='Coq proof of one-step lemmas + extracted-model differential testing with trace monitors (history-level clauses not proved)',
+        technique=('Coq proof (global invariant through the callback knot + one-step lemmas + guard table regenerated from the C source) + extracted-model differential testing with trace monitors' if _p in ('C01', 'C15', 'C16', 'C17', 'C18') else 'Coq proof of one-step lemmas + extracted-model differential testing with trace monitors (history-level clauses not proved)'),
         design='7/' + _p)
 
 def main():
